@@ -18,7 +18,7 @@ Inductive case :=
   | Text (contents : list (list (nat * nat))) (badl : list bool) (cache_enabled : bool)
          (calls : list (list tcall)) (st : stamps) (sch : list (choice unit))
   | Store (calls : list (list scall)) (st : stamps) (sch : list (choice unit))
-  | Yaml (table : list (list ydata)) (tree : list nat) (w0 : list nat) (ncalls : list nat)
+  | Yaml (table : list (list ydata)) (tree : list nat) (w0 : list nat) (ncalls : list nat) (st : stamps)
          (sch : list (choice nat)) (post : bool).
 Definition obs := list (list R).
 
@@ -87,7 +87,7 @@ Definition run_model (c : case) : obs :=
   | Cache capacity calls st sch => plain (results _ _ _ _ _ (cr_run (cr_init capacity calls st) sch))
   | Text contents badl ce calls st sch => plain (results _ _ _ _ _ (tr_run contents badl ce (tr_init calls st) sch))
   | Store calls st sch => plain (results _ _ _ _ _ (sr_run (sr_init calls st) sch))
-  | Yaml table tree w0 ncalls sch post => results _ _ _ _ _ (y_run table tree true (y_init w0 ncalls) sch)
+  | Yaml table tree w0 ncalls st sch post => results _ _ _ _ _ (y_run table tree true (y_init w0 ncalls) sch)
   end.
 
 (* ---------- linearizable ---------- *)
@@ -141,7 +141,29 @@ Definition y_member (specs : list R) (o : obs) : bool :=
   forallb (forallb (fun r => existsb (r_eqb r) specs)) o.
 (* clause 2: along each thread the states answered for do not go back, and the post thread (the last
    one) sees the final state *)
-Definition y_order (specs : list R) (post : bool) (o : obs) : bool :=
+(* real time across threads: a call invoked after another call had returned must not answer for an
+   earlier state than that call did (earliest state matching the predecessor <= latest state matching it) *)
+Fixpoint first_idx (r : R) (specs : list R) (i : nat) : option nat :=
+  match specs with [] => None | s :: sp => if r_eqb r s then Some i else first_idx r sp (S i) end.
+Fixpoint last_idx (r : R) (specs : list R) (i : nat) (acc : option nat) : option nat :=
+  match specs with [] => acc | s :: sp => last_idx r sp (S i) (if r_eqb r s then Some i else acc) end.
+Definition y_rt_call (specs : list R) (o : obs) (r : R) (ps : list (nat * nat)) : bool :=
+  forallb (fun p => match first_idx (nth (snd p) (nth (fst p) o []) []) specs 0, last_idx r specs 0 None with
+                    | Some a, Some b => Nat.leb a b
+                    | _, _ => true
+                    end) ps.
+Fixpoint y_rt_thread (specs : list R) (o : obs) (rs : list R) (pss : list (list (nat * nat))) : bool :=
+  match rs, pss with
+  | r :: rs', ps :: pss' => y_rt_call specs o r ps && y_rt_thread specs o rs' pss'
+  | _, _ => true
+  end.
+Fixpoint y_rt (specs : list R) (o : obs) (ts : obs) (st : stamps) : bool :=
+  match ts, st with
+  | rs :: ts', pss :: st' => y_rt_thread specs o rs pss && y_rt specs o ts' st'
+  | _, _ => true
+  end.
+Definition y_order (specs : list R) (st : stamps) (post : bool) (o : obs) : bool :=
+  y_rt specs o o st &&
   forallb (fun rs => match_mono rs specs) o &&
   (if post then match rev o with
                 | last :: _ => forallb (fun r => r_eqb r (List.last specs [])) last
@@ -149,7 +171,7 @@ Definition y_order (specs : list R) (post : bool) (o : obs) : bool :=
                 end
    else true).
 Definition y_check table tree w0 (sch : list (choice nat)) (post : bool) (o : obs) : bool :=
-  let specs := y_specs table tree w0 sch in y_member specs o && y_order specs post o.
+  let specs := y_specs table tree w0 sch in y_member specs o && y_order specs [] post o.
 
 Local Open Scope string_scope.
 Definition is_exc (r : R) : bool := match r with 9 :: _ => true | _ => false end.
@@ -172,10 +194,10 @@ Definition holds (c : case) (o : obs) : list string :=
   | Store calls st sch =>
       if sr_search calls st sch o then []
       else if s_search calls sch o then ["real_time_order"] else blame o
-  | Yaml table tree w0 ncalls sch post =>
+  | Yaml table tree w0 ncalls st sch post =>
       let specs := y_specs table tree w0 sch in
       (if y_member specs o then [] else blame o) ++
-      (if y_order specs post o then [] else ["program_order_and_final_state"])
+      (if y_order specs st post o then [] else ["real_time_order_and_final_state"])
   end.
 
 (* valid: the schedule runs every call to completion (it is the record of a complete run) and, replayed on
@@ -197,9 +219,9 @@ Definition valid (c : case) : Prop :=
   | Store calls st sch =>
       all_done _ _ _ _ _ (sr_run (sr_init calls st) sch) = true /\
       no_none (results _ _ _ _ _ (sr_run (sr_init calls st) sch)) = true
-  | Yaml table tree w0 ncalls sch post =>
+  | Yaml table tree w0 ncalls st sch post =>
       length (envs_of sch) <= 1 /\
-      y_order (y_specs table tree w0 sch) post
+      y_order (y_specs table tree w0 sch) st post
               (results _ _ _ _ _ (y_run table tree true (y_init w0 ncalls) sch)) = true
   end.
 
@@ -256,11 +278,11 @@ Definition decode (x : sx) : option (case * obs) :=
       obind (asListOf (asListOf asSC) calls) (fun calls => obind (asStamps st) (fun st =>
       obind (asListOf asChoiceU sch) (fun sch =>
       obind (asObs io) (fun io => Some (Store calls st sch, io)))))
-  | L [I 3%Z; table; tree; w0; ncalls; sch; post; io] =>
+  | L [I 3%Z; table; tree; w0; ncalls; st; sch; post; io] =>
       obind (asListOf (asListOf (asListOf asPair)) table) (fun table => obind (asListOf asNat tree) (fun tree =>
-      obind (asListOf asNat w0) (fun w0 => obind (asListOf asNat ncalls) (fun ncalls =>
+      obind (asListOf asNat w0) (fun w0 => obind (asListOf asNat ncalls) (fun ncalls => obind (asStamps st) (fun st =>
       obind (asListOf asChoiceN sch) (fun sch => obind (asBool post) (fun post => obind (asObs io) (fun io =>
-      Some (Yaml table tree w0 ncalls sch post, io))))))))
+      Some (Yaml table tree w0 ncalls st sch post, io)))))))))
   | _ => None
   end.
 
